@@ -7,20 +7,21 @@
     conforms_perm_keys           conformance to a dictionary / stream type does not depend on the order
                                  of the entries of the type
     conforms_antitone            conf (n+1) ≤ conf n  (the chain of unfoldings decreases)
-    conforms_stabilises_partial  if two consecutive unfoldings agree everywhere, all later ones agree
-                                 (the limit is reached); NOT proved: that this happens at n ≤ |pairs|
-                                 (observed on every case by the judge, which iterates to a fixed point)
-    machine_eq_conforms_partial  the machine's verdict equals the declarative one on the LEAF fragment:
-                                 a non-reference object against `any`/primitive checks without predicate
-                                 (all 11 object constructors x 8 leaf types x 3 indirection requirements).
-                                 NOT proved: compound types, references, disjunctions (there the link is
-                                 the correspondence run + bounded-exhaustive search; the machine is known
-                                 to differ from the specification in the four classes below).
+    conforms_stabilises_partial  if two consecutive unfoldings agree everywhere, all later ones agree; the FULL
+                                 statement is proved in Lemmas/ConformsStab.lean: `conforms_stabilises` (the chain is
+                                 constant on the universe of a case from level |pairs| on), `Conforms_iff_conf_card`,
+                                 and `gfp_iff_Conforms` (the judge's executable oracle decides `Conforms` exactly)
+    machine_eq_conforms_partial  the machine's verdict (code as it is, `Fix.tree`) equals the declarative one on the
+                                 LEAF fragment: EVERY object (references: chains, undefined, cyclic; compound objects)
+                                 against `any`/primitive checks with ANY predicate and ANY indirection requirement,
+                                 over every graph.  NOT proved: array/dictionary/stream/disjunction/named nodes
+                                 (there the link is the correspondence run + bounded-exhaustive search; with
+                                 disjunctions the machine is known to differ from the specification: memo leak).
   Witness theorems (decide on concrete inputs; each is a corpus case replayed on the real check_type):
-    memo_leak_witness, disjunct_attrs_dropped_witness, named_disjunct_witness, selfref_not_null_witness
-    (known findings still in the tree) and, for the ORIGINAL code, memo_ignores_predicate_witness,
-    any_entry_skips_pred_witness, stale_disjunct_index_witness, stale_error_witness (repaired: the same
-    inputs are decided correctly by `Fix.tree`).
+    memo_leak_witness, any_entry_skips_indirect_witness (known findings still in the tree) and, for the
+    ORIGINAL code `Fix.orig`, disjunct_attrs_dropped_witness, named_disjunct_witness, selfref_not_null_witness,
+    memo_ignores_predicate_witness, any_entry_skips_pred_witness, stale_disjunct_index_witness,
+    stale_error_witness (repaired by C08-01..09: the same inputs are decided correctly by `Fix.tree`).
 -/
 import Parsley.Model.TypeCheck
 import Parsley.Spec.Conforms
@@ -161,13 +162,174 @@ example : conf [] [] 3 (.int 1) (.prim Attr.dflt .integer) = true := by decide
 
 def verdict (r : Outcome × Nat) : Bool := decide (r.1 = .accept)
 
-theorem machine_eq_conforms_partial (g : Graph) (ctx : Ctx) (o : Obj) (ind : Ind) (hp : o.isRef = false) :
-    (verdict (checkTypeFuel Fix.tree g ctx 4 o (.any ⟨none, ind⟩)) = conf g ctx 1 o (.any ⟨none, ind⟩)) ∧
-    (∀ p, verdict (checkTypeFuel Fix.tree g ctx 4 o (.prim ⟨none, ind⟩ p)) = conf g ctx 1 o (.prim ⟨none, ind⟩ p)) := by
+set_option linter.unusedSimpArgs false
+
+theorem deref_eq_chase (g : Graph) : ∀ n o, deref g n o = g.chase n o
+  | 0, o => by simp [deref, Graph.chase]
+  | n+1, o => by
+    cases o with
+    | ref a b =>
+      simp only [deref, Graph.chase]
+      cases h : g.lookup (a, b) with
+      | none => rfl
+      | some t => exact deref_eq_chase g n t
+    | _ => simp [deref, Graph.chase]
+
+theorem chase_not_ref (g : Graph) : ∀ n o, (g.chase n o).isRef = false
+  | 0, o => by simp [Graph.chase, Obj.isRef]
+  | n+1, o => by
+    cases o with
+    | ref a b =>
+      simp only [Graph.chase]
+      split
+      · exact chase_not_ref g n _
+      · rfl
+    | _ => simp [Graph.chase, Obj.isRef]
+
+set_option maxRecDepth 4000 in
+theorem leaf_any_nonref (g : Graph) (ctx : Ctx) (o : Obj) (pred : Option Pred) (ind : Ind) (hp : o.isRef = false) :
+    verdict (checkTypeFuel Fix.tree g ctx 5 o (.any ⟨pred, ind⟩)) = conf g ctx 1 o (.any ⟨pred, ind⟩) := by
+  have hv : value g o = o := by cases o <;> first | rfl | simp [Obj.isRef] at hp
+  simp only [conf, confStep, resolve, Chk.attr, hv, shapeOK, Bool.and_true]
+  cases hpr : checkPred pred o with
+  | none =>
+    have hpo : predOK pred o = true := by
+      cases pred <;> simp_all [checkPred, predOK]
+    cases o with
+    | ref a b => simp [Obj.isRef] at hp
+    | _ => cases ind <;> simp [verdict, checkTypeFuel, resolve, Chk.norm, run, step, initSt, issue, haveExamined, processCheck, checkShape, ofPred, hpr, hpo, indOK, Obj.isRef, Fix.tree, Fix.orig, Chk.attr, Chk.isDisj, unwindOr, unwind]
+  | some k =>
+    have hpo : predOK pred o = false := by
+      cases pred with
+      | none => simp [checkPred] at hpr
+      | some p => simp only [checkPred] at hpr; simp only [predOK]; split at hpr <;> simp_all
+    cases o with
+    | ref a b => simp [Obj.isRef] at hp
+    | _ => cases ind <;> simp [verdict, checkTypeFuel, resolve, Chk.norm, run, step, initSt, issue, haveExamined, processCheck, checkShape, ofPred, hpr, hpo, indOK, Obj.isRef, Fix.tree, Fix.orig, Chk.attr, Chk.isDisj, unwindOr, unwind]
+
+set_option maxRecDepth 4000 in
+theorem leaf_prim_nonref (g : Graph) (ctx : Ctx) (o : Obj) (pred : Option Pred) (ind : Ind) (p : Prim) (hp : o.isRef = false) :
+    verdict (checkTypeFuel Fix.tree g ctx 5 o (.prim ⟨pred, ind⟩ p)) = conf g ctx 1 o (.prim ⟨pred, ind⟩ p) := by
+  have hv : value g o = o := by cases o <;> first | rfl | simp [Obj.isRef] at hp
+  simp only [conf, confStep, resolve, Chk.attr, hv, shapeOK]
+  cases hpr : checkPred pred o with
+  | none =>
+    have hpo : predOK pred o = true := by
+      cases pred <;> simp_all [checkPred, predOK]
+    cases o with
+    | ref a b => simp [Obj.isRef] at hp
+    | _ => cases ind <;> cases p <;> simp [verdict, checkTypeFuel, resolve, Chk.norm, run, step, initSt, issue, haveExamined, processCheck, checkShape, primMatches, primOK, ofPred, hpr, hpo, indOK, Obj.isRef, Fix.tree, Fix.orig, Chk.attr, Chk.isDisj, unwindOr, unwind]
+  | some k =>
+    have hpo : predOK pred o = false := by
+      cases pred with
+      | none => simp [checkPred] at hpr
+      | some p => simp only [checkPred] at hpr; simp only [predOK]; split at hpr <;> simp_all
+    cases o with
+    | ref a b => simp [Obj.isRef] at hp
+    | _ => cases ind <;> cases p <;> simp [verdict, checkTypeFuel, resolve, Chk.norm, run, step, initSt, issue, haveExamined, processCheck, checkShape, primMatches, primOK, ofPred, hpr, hpo, indOK, Obj.isRef, Fix.tree, Fix.orig, Chk.attr, Chk.isDisj, unwindOr, unwind]
+
+set_option maxRecDepth 4000 in
+theorem leaf_any_ref (g : Graph) (ctx : Ctx) (a b : Nat) (pred : Option Pred) (ind : Ind) :
+    verdict (checkTypeFuel Fix.tree g ctx 5 (.ref a b) (.any ⟨pred, ind⟩)) = conf g ctx 1 (.ref a b) (.any ⟨pred, ind⟩) := by
+  simp only [conf, confStep, resolve, Chk.attr, shapeOK, Bool.and_true, value, deref_eq_chase]
+  have hv := chase_not_ref g (g.length+1) (.ref a b)
+  cases ind with
+  | forbidden =>
+    simp [verdict, checkTypeFuel, resolve, Chk.norm, run, step, initSt, issue, haveExamined, processCheck, indOK, Obj.isRef, Fix.tree, Fix.orig, Chk.attr, Chk.isDisj, unwindOr, unwind]
+  | _ =>
+    simp only [verdict, checkTypeFuel, resolve, Chk.norm, run, step, initSt, issue, haveExamined, processCheck, indOK, Obj.isRef, Fix.tree, Fix.orig, Chk.attr, Chk.isDisj, Chk.allowInd, Chk.setAttr, List.any_nil, Bool.and_false, Bool.false_eq_true, if_false, if_true, Bool.and_true, Bool.true_and]
+    generalize g.chase (g.length + 1) (.ref a b) = v at hv ⊢
+    cases hpr : checkPred pred v with
+    | none =>
+      have hpo : predOK pred v = true := by
+        cases pred <;> simp_all [checkPred, predOK]
+      cases v with
+      | ref a b => simp [Obj.isRef] at hv
+      | _ => simp [run, step, issue, haveExamined, memoEq, processCheck, checkShape, ofPred, hpr, hpo, Obj.isRef, Chk.attr, Chk.isDisj, unwindOr, unwind]
+    | some k =>
+      have hpo : predOK pred v = false := by
+        cases pred with
+        | none => simp [checkPred] at hpr
+        | some p => simp only [checkPred] at hpr; simp only [predOK]; split at hpr <;> simp_all
+      cases v with
+      | ref a b => simp [Obj.isRef] at hv
+      | _ => simp [run, step, issue, haveExamined, memoEq, processCheck, checkShape, ofPred, hpr, hpo, Obj.isRef, Chk.attr, Chk.isDisj, unwindOr, unwind]
+
+set_option maxRecDepth 4000 in
+theorem leaf_prim_ref (g : Graph) (ctx : Ctx) (a b : Nat) (pred : Option Pred) (ind : Ind) (p : Prim) :
+    verdict (checkTypeFuel Fix.tree g ctx 5 (.ref a b) (.prim ⟨pred, ind⟩ p)) = conf g ctx 1 (.ref a b) (.prim ⟨pred, ind⟩ p) := by
+  simp only [conf, confStep, resolve, Chk.attr, shapeOK, value, deref_eq_chase]
+  have hv := chase_not_ref g (g.length+1) (.ref a b)
+  cases ind with
+  | forbidden =>
+    simp [verdict, checkTypeFuel, resolve, Chk.norm, run, step, initSt, issue, haveExamined, processCheck, indOK, Obj.isRef, Fix.tree, Fix.orig, Chk.attr, Chk.isDisj, unwindOr, unwind]
+  | _ =>
+    simp only [verdict, checkTypeFuel, resolve, Chk.norm, run, step, initSt, issue, haveExamined, processCheck, indOK, Obj.isRef, Fix.tree, Fix.orig, Chk.attr, Chk.isDisj, Chk.allowInd, Chk.setAttr, List.any_nil, Bool.and_false, Bool.false_eq_true, if_false, if_true, Bool.true_and]
+    generalize g.chase (g.length + 1) (.ref a b) = v at hv ⊢
+    cases hpr : checkPred pred v with
+    | none =>
+      have hpo : predOK pred v = true := by
+        cases pred <;> simp_all [checkPred, predOK]
+      cases v with
+      | ref a b => simp [Obj.isRef] at hv
+      | _ => cases p <;> simp [run, step, issue, haveExamined, memoEq, processCheck, checkShape, primMatches, primOK, ofPred, hpr, hpo, Obj.isRef, Chk.attr, Chk.isDisj, unwindOr, unwind]
+    | some k =>
+      have hpo : predOK pred v = false := by
+        cases pred with
+        | none => simp [checkPred] at hpr
+        | some p => simp only [checkPred] at hpr; simp only [predOK]; split at hpr <;> simp_all
+      cases v with
+      | ref a b => simp [Obj.isRef] at hv
+      | _ => cases p <;> simp [run, step, issue, haveExamined, memoEq, processCheck, checkShape, primMatches, primOK, ofPred, hpr, hpo, Obj.isRef, Chk.attr, Chk.isDisj, unwindOr, unwind]
+
+/-- leaf checks: `Any` and the primitive types, with ANY predicate and ANY indirection requirement -/
+def isLeaf : Chk → Bool
+  | .any _ | .prim _ _ => true
+  | _ => false
+
+/-- on a leaf check one unfolding is the limit: conformance does not look at components -/
+theorem conf_leaf_const (g : Graph) (ctx : Ctx) (o : Obj) (c : Chk) (hl : isLeaf c = true) (n : Nat) :
+    conf g ctx (n + 1) o c = conf g ctx 1 o c := by
+  cases c <;> simp [isLeaf] at hl <;> simp [conf, confStep, resolve, shapeOK]
+
+/-- C08 on the leaf fragment, at full strength there: for EVERY graph (reference chains of any length,
+    undefined references, reference cycles), EVERY object -- a reference or not, compound or not -- and
+    every leaf check with an arbitrary predicate and indirection requirement, the machine (the code as it
+    is, `Fix.tree`) accepts iff the object conforms.
+    NOT proved: array / dictionary / stream / disjunction / named nodes (there the link is the
+    correspondence run, the bounded-exhaustive oracle search and `gfp_iff_Conforms`; with a disjunction the
+    statement is false for the code as it is: `memo_leak_witness`). -/
+theorem machine_eq_conforms_partial (g : Graph) (ctx : Ctx) (o : Obj) (c : Chk) (hl : isLeaf c = true) :
+    verdict (checkTypeFuel Fix.tree g ctx 5 o c) = conf g ctx 1 o c ∧
+    (verdict (checkTypeFuel Fix.tree g ctx 5 o c) = true ↔ Conforms g ctx o c) := by
+  have h1 : verdict (checkTypeFuel Fix.tree g ctx 5 o c) = conf g ctx 1 o c := by
+    cases c with
+    | any a =>
+      obtain ⟨pred, ind⟩ := a
+      cases ho : o.isRef with
+      | false => exact leaf_any_nonref g ctx o pred ind ho
+      | true => cases o <;> simp [Obj.isRef] at ho; exact leaf_any_ref g ctx _ _ pred ind
+    | prim a p =>
+      obtain ⟨pred, ind⟩ := a
+      cases ho : o.isRef with
+      | false => exact leaf_prim_nonref g ctx o pred ind p ho
+      | true => cases o <;> simp [Obj.isRef] at ho; exact leaf_prim_ref g ctx _ _ pred ind p
+    | _ => simp [isLeaf] at hl
+  refine ⟨h1, ?_⟩
+  rw [h1]
   constructor
-  · cases o <;> cases ind <;> first | rfl | (simp [Obj.isRef] at hp)
-  · intro p
-    cases o <;> cases ind <;> cases p <;> first | rfl | (simp [Obj.isRef] at hp)
+  · intro h n
+    cases n with
+    | zero => rfl
+    | succ n => rw [conf_leaf_const g ctx o c hl n]; exact h
+  · intro h; exact h 1
+
+-- non-vacuity: a reference chain 2 -> 1 -> /a against Name with a choice predicate, REQUIRED indirect
+example : verdict (checkTypeFuel Fix.tree [((1, 0), .name [0x61]), ((2, 0), .ref 1 0)] [] 5 (.ref 2 0)
+    (.prim ⟨some (.choice [.name [0x61]]), .required⟩ .name)) = true := by decide
+-- and a reference cycle is null
+example : verdict (checkTypeFuel Fix.tree [((1, 0), .ref 2 0), ((2, 0), .ref 1 0)] [] 5 (.ref 2 0)
+    (.prim ⟨none, .required⟩ .null)) = true := by decide
 
 /-! ### witnesses -/
 
